@@ -3,12 +3,14 @@ import Mkdb.Proofs.ConsoleEditBytes
 import Mkdb.Proofs.ConsoleHist2
 import Mkdb.Proofs.ConsoleHist3
 import Mkdb.Proofs.ConsoleHist4
+import Mkdb.Proofs.ConsoleMore4
 /-!
 # C20 — the console submits exactly the statements that were typed
 
 Property theorems only.  Helper lemmas and the session invariant are in `Mkdb/Proofs/Console.lean`,
 those about the editing keys and the byte level in `Mkdb/Proofs/ConsoleEdit.lean`, `ConsoleEditBytes.lean`,
-those about nested corrections, ^U, the history and the movement keys in `Mkdb/Proofs/ConsoleHist1.lean` - `ConsoleHist4.lean`.
+those about nested corrections, ^U, the history and the movement keys in `Mkdb/Proofs/ConsoleHist1.lean` - `ConsoleHist4.lean`,
+those about the session on any byte stream, bracketed paste as bytes, ^K ^D ^W, Up and Down in `Mkdb/Proofs/ConsoleMore1.lean` - `ConsoleMore4.lean`.
 -/
 namespace Mkdb.Console
 
@@ -445,5 +447,258 @@ example : session (codes "USX" ++ [127] ++ codes "E d;" ++ [13, 27, 91, 65, 13])
 
 example : session (codes "USX" ++ [127] ++ codes "E d;" ++ [13, 27, 91, 65, 13]) =
     [[codes "USE d;"], [codes "USE d;"]] := by decide
+
+/-! ## Bracketed paste as bytes -/
+
+/-- **The fuel of the session does not matter**: `sessionFrom` (the loop of `ReadLine` calls) gives the same
+lines with every fuel above the number of bytes left - `bytesToKey` consumes at least one byte per key, for
+ANY bytes.  (So the `sessionFrom (rest.length + 1) …` of the theorems below is `sessionFrom` with any
+sufficient fuel.) -/
+theorem C20_session_fuel_irrelevant (F F' : Nat) (t : Term) (bytes : List Nat) (h : bytes.length < F)
+    (h' : bytes.length < F') : sessionFrom F t bytes = sessionFrom F' t bytes :=
+  sessionFrom_fuel F F' t bytes h h'
+
+example : sessionFrom 9 {} (codes "USE d;" ++ [13]) = sessionFrom 100 {} (codes "USE d;" ++ [13]) :=
+  C20_session_fuel_irrelevant 9 100 {} _ (by decide) (by decide)
+
+/-- **Typed text, then anything**: outside paste mode, the UTF-8 text of printable keys and Enters (`TypedKey`)
+followed by ANY bytes `rest` hands over what `run` says for the keys, and then `rest` is read from the state
+the keys leave (`final t keys`).  Generalises `C20_bytes_session` (there `rest = []`, `t = {}`). -/
+theorem C20_typed_bytes_then (keys : List Nat) (t : Term) (rest : List Nat) (hpa : t.pasteActive = false)
+    (hv : ∀ k ∈ keys, TypedKey k) :
+    sessionFrom ((encodeKeys keys ++ rest).length + 1) t (encodeKeys keys ++ rest) =
+      run t keys ++ sessionFrom (rest.length + 1) (final t keys) rest :=
+  sess_typed keys _ _ t rest hpa hv (Nat.lt_succ_self _) (Nat.lt_succ_self _)
+
+example : sessionFrom ((encodeKeys (codes "USE d;" ++ [13]) ++ [4, 65]).length + 1) {}
+    (encodeKeys (codes "USE d;" ++ [13]) ++ [4, 65]) =
+    run {} (codes "USE d;" ++ [13]) ++ sessionFrom 3 (final {} (codes "USE d;" ++ [13])) [4, 65] :=
+  C20_typed_bytes_then _ {} [4, 65] rfl (by decide)
+
+/-- **A paste as bytes, from any state**: outside paste mode, the byte stream `ESC[200~` (`pasteStartSeq`),
+the UTF-8 text of printable keys and Enters, `ESC[201~` (`pasteEndSeq`), then ANY bytes `rest`: the lines
+handed over are those of the text typed (`run t keys`: a pasted line comes with `ErrPasteIndicator`, which
+the console loop since repair edcd8de treats like any other line), and `rest` is read outside paste mode from
+the state the typed text would have left (`final t keys`).  Proved in full: the paste may hold complete
+lines, an unfinished one, or begin in the middle of a line.  Excluded: pasted bytes that are no printable keys
+or Enters (in paste mode control bytes and ESC sequences other than `ESC[201~` go into the line verbatim:
+`C20_paste_verbatim`), text that is no Unicode scalar values. -/
+theorem C20_pasted_bytes_from (keys : List Nat) (t : Term) (rest : List Nat) (hpa : t.pasteActive = false)
+    (hv : ∀ k ∈ keys, TypedKey k) :
+    sessionFrom ((pasteStartSeq ++ encodeKeys keys ++ pasteEndSeq ++ rest).length + 1) t
+        (pasteStartSeq ++ encodeKeys keys ++ pasteEndSeq ++ rest) =
+      run t keys ++ sessionFrom (rest.length + 1) (final t keys) rest := by
+  have e : pasteStartSeq ++ encodeKeys keys ++ pasteEndSeq ++ rest =
+      pasteStartSeq ++ (encodeKeys keys ++ (pasteEndSeq ++ rest)) := by simp only [List.append_assoc]
+  rw [e]
+  exact sess_paste keys _ _ t rest hpa hv (Nat.lt_succ_self _) (Nat.lt_succ_self _)
+
+/-- **C20.pasted_bytes_session**: the console started on the byte stream `ESC[200~` text `ESC[201~` `rest`
+(text: printable keys and Enters, Unicode scalar values) hands over exactly what it hands over when the text
+is typed (`run {} keys`, so `C20_session` / `C20_submit` apply), and then reads `rest` - any bytes: typed text,
+editing keys, another paste - outside paste mode from the state the typed text leaves.  This is "typed or
+pasted" of the property at the level the program reads its input. -/
+theorem C20_pasted_bytes_session (keys : List Nat) (rest : List Nat) (hv : ∀ k ∈ keys, TypedKey k) :
+    session (pasteStartSeq ++ encodeKeys keys ++ pasteEndSeq ++ rest) =
+      run {} keys ++ sessionFrom (rest.length + 1) (final {} keys) rest :=
+  C20_pasted_bytes_from keys {} rest rfl hv
+
+/-- ... in particular a paste alone gives what the text typed gives -/
+theorem C20_pasted_bytes_alone (keys : List Nat) (hv : ∀ k ∈ keys, TypedKey k) :
+    session (pasteStartSeq ++ encodeKeys keys ++ pasteEndSeq) = run {} keys := by
+  have h := C20_pasted_bytes_session keys [] hv
+  rw [List.append_nil, sessionFrom_nil, List.append_nil] at h
+  exact h
+
+/-- two statements pasted in one piece, the second over two lines -/
+example : session (pasteStartSeq ++ encodeKeys (codes "USE é; SELECT" ++ [13] ++ codes "1;" ++ [13]) ++ pasteEndSeq) =
+    [[codes "USE é;", codes "SELECT 1;"]] := by
+  rw [C20_pasted_bytes_alone _ (by decide)]; decide
+
+/-- **Typed, pasted, typed**: text typed, then a paste, then text typed again - each of printable keys and
+Enters; the paste may begin and end in the middle of a line - is handed over as the whole text typed. -/
+theorem C20_pasted_among_typed (pre keys post : List Nat) (hpre : ∀ k ∈ pre, TypedKey k)
+    (hv : ∀ k ∈ keys, TypedKey k) (hpost : ∀ k ∈ post, TypedKey k) :
+    session (encodeKeys pre ++ (pasteStartSeq ++ encodeKeys keys ++ pasteEndSeq ++ encodeKeys post)) =
+      run {} (pre ++ keys ++ post) := by
+  have hpa : (final {} pre).pasteActive = false := final_valid_paste pre {} (fun k hk => (hpre k hk).1)
+  have hpa2 : (final (final {} pre) keys).pasteActive = false := by
+    rw [final_valid_paste keys _ (fun k hk => (hv k hk).1)]; exact hpa
+  have h3 := sess_typed post ((encodeKeys post ++ []).length + 1) 1 (final (final {} pre) keys) [] hpa2 hpost
+    (Nat.lt_succ_self _) (by decide)
+  rw [List.append_nil, sessionFrom_nil, List.append_nil] at h3
+  unfold session
+  rw [sess_typed pre _ _ {} _ rfl hpre (Nat.lt_succ_self _) (Nat.lt_succ_self _),
+    C20_pasted_bytes_from keys _ _ hpa hv, h3, List.append_assoc pre, run_append, run_append keys]
+
+/-- `SELECT ` typed, `'a;b'` pasted, `;` Enter typed -/
+example : session (encodeKeys (codes "SELECT ") ++ (pasteStartSeq ++ encodeKeys (codes "'a;b'") ++ pasteEndSeq ++
+    encodeKeys (codes ";" ++ [13]))) = [[codes "SELECT 'a;b';"]] := by
+  rw [C20_pasted_among_typed _ _ _ (by decide) (by decide) (by decide)]; decide
+
+/-! ## ^K, ^D, ^W -/
+
+/-- **^K at the end of the line** (outside paste mode, nothing behind the cursor) changes nothing and hands
+over nothing. -/
+theorem C20_delete_line_at_end (t : Term) (hpa : t.pasteActive = false) (hend : t.pos = t.line.length) :
+    step t keyDeleteLine = (t, none) :=
+  step_deleteLine_atEnd t hpa (by omega)
+
+/-- **^D at the end of the line** (outside paste mode, nothing behind the cursor) changes nothing and hands
+over nothing - as a key of `handleKey`.  In the loop of `readLine` ^D on an EMPTY line ends the console
+(`C20_ctrlD_byte`). -/
+theorem C20_ctrlD_at_end (t : Term) (hpa : t.pasteActive = false) (hend : t.pos = t.line.length) :
+    step t keyCtrlD = (t, none) :=
+  step_ctrlD_atEnd t hpa (by omega)
+
+example : step { line := codes "SELECT 1", pos := 8 } keyDeleteLine = ({ line := codes "SELECT 1", pos := 8 }, none) :=
+  C20_delete_line_at_end _ rfl rfl
+example : step { line := codes "SELECT 1", pos := 8 } keyCtrlD = ({ line := codes "SELECT 1", pos := 8 }, none) :=
+  C20_ctrlD_at_end _ rfl rfl
+
+/-- **The byte ^D**, outside paste mode, whatever bytes follow: on an empty line it ends the console (nothing
+that follows is handed over); with the cursor at the end of a line that is not empty it is skipped. -/
+theorem C20_ctrlD_byte (t : Term) (rest : List Nat) (hpa : t.pasteActive = false) :
+    (t.line = [] → sessionFrom ((4 :: rest).length + 1) t (4 :: rest) = []) ∧
+    (t.line ≠ [] → t.pos = t.line.length →
+      sessionFrom ((4 :: rest).length + 1) t (4 :: rest) = sessionFrom (rest.length + 1) t rest) :=
+  ⟨fun hl => sess_ctrlD_empty _ t rest hpa hl (Nat.lt_succ_self _),
+   fun hl hend => sess_ctrlD_nonempty _ _ t rest hpa hl (by omega) (Nat.lt_succ_self _) (Nat.lt_succ_self _)⟩
+
+example : session ([4] ++ codes "USE d;" ++ [13]) = [] := (C20_ctrlD_byte {} _ rfl).1 rfl
+example : session (codes "USE d" ++ [4] ++ codes ";" ++ [13]) = [[codes "USE d;"]] := by decide
+
+/-- **^K and ^D after typed text are noise**: from a state outside paste mode with the cursor at the end,
+after printable keys and Enters (`a`), any number of ^K and ^D keys change no submission of what is typed
+afterwards and leave the same state.  Excluded: the cursor moved back before (then they delete text), and
+at the byte level ^D on an empty line (`C20_ctrlD_byte`). -/
+theorem C20_delete_line_ctrlD_same_run (a ks b : List Nat) (t : Term) (hpa : t.pasteActive = false)
+    (hend : t.pos = t.line.length)
+    (ha : ∀ k ∈ a, k = 13 ∨ (isPrintable k = true ∧ k ≠ 13))
+    (hks : ∀ k ∈ ks, k = keyDeleteLine ∨ k = keyCtrlD) :
+    run t (a ++ ks ++ b) = run t (a ++ b) ∧ final t (a ++ ks ++ b) = final t (a ++ b) :=
+  run_endNoise a ks b t hpa hend ha hks
+
+example : run {} (codes "USE" ++ [keyDeleteLine, keyCtrlD, keyDeleteLine] ++ (codes " d;" ++ [13])) =
+    run {} (codes "USE" ++ (codes " d;" ++ [13])) :=
+  (C20_delete_line_ctrlD_same_run _ _ _ {} rfl rfl (by decide) (by decide)).1
+
+/-- **C20.delete_word_erases_the_last_word**: outside paste mode, with the cursor at the end of a line that
+ends with a space which is not its first key (`t.line = pre ++ [32]`, `pre` not empty), a word `w` (not empty,
+printable keys other than the space) typed and then ^W gives back exactly the state before the word: the word
+is erased, the space before it STAYS (`countToLeftWord` stops behind the space), nothing is handed over.
+Excluded: a space at index 0 of the line (`C20_delete_word_quirk`); blanks other than U+0020 (tab, NBSP:
+`countToLeftWord` knows only `' '`, they are part of the word). -/
+theorem C20_delete_word_erases_the_last_word (t : Term) (pre w : List Nat) (hpa : t.pasteActive = false)
+    (hend : t.pos = t.line.length) (hl : t.line = pre ++ [32]) (hpre : pre ≠ []) (hne : w ≠ [])
+    (hw : ∀ c ∈ w, isPrintable c = true ∧ c ≠ 32) :
+    run t (w ++ [keyDeleteWord]) = [] ∧ final t (w ++ [keyDeleteWord]) = t :=
+  word_then_deleteWord t pre w hpa hend hl hpre hne hw
+
+example : final { line := codes "SELECT ", pos := 7 } (codes "12" ++ [keyDeleteWord]) = { line := codes "SELECT ", pos := 7 } :=
+  (C20_delete_word_erases_the_last_word _ (codes "SELECT") (codes "12") rfl rfl rfl (by decide) (by decide)
+    (by decide)).2
+
+/-- **The quirk of ^W** (as in x/term): the loop of `countToLeftWord` that looks for the space before the word
+runs `for pos > 0` and never looks at index 0 - a space that is the FIRST key of the line is erased together
+with the word after it (` ab` ^W leaves the empty line, not ` `); everywhere else the space stays (`a ab` ^W
+leaves `a `).  No statement is lost or changed by it: the space is a blank outside any word. -/
+theorem C20_delete_word_quirk :
+    (final {} (codes " ab" ++ [keyDeleteWord])).line = [] ∧ (final {} (codes " ")).line = codes " " ∧
+    (final {} (codes "a ab" ++ [keyDeleteWord])).line = codes "a " := by decide
+
+/-! ## Up and Down -/
+
+/-- **C20.up_then_down_restores_the_typed_line**: on a line typed but not yet submitted - outside paste mode,
+outside the history (`historyIndex = -1`), the line holding Unicode scalar values only (typed text does;
+`C20_up_then_down_general` without), cursor at the end - Up pressed `j` times (`1 ≤ j ≤` the number of
+history entries) and then Down `j` times hands over nothing and gives back the same state: `line`, `pos`,
+history, `historyIndex = -1`; only `historyPending` (where the first Up put the line aside) now holds the line. -/
+theorem C20_up_then_down_restores_the_typed_line (j : Nat) (t : Term) (hpa : t.pasteActive = false)
+    (hi : t.historyIndex = -1) (hend : t.pos = t.line.length) (hv : ∀ c ∈ t.line, validRune c = c)
+    (hj1 : 1 ≤ j) (hj : j ≤ t.history.length) :
+    run t (List.replicate j keyUp ++ List.replicate j keyDown) = [] ∧
+      final t (List.replicate j keyUp ++ List.replicate j keyDown) = { t with historyPending := t.line } := by
+  rw [← afterUpDown_valid t hv hend]
+  exact ups_downs j t hpa hi hj hj1
+
+example : final { line := codes "SEL", pos := 3, history := [codes "USE b;", codes "USE a;"] }
+      (List.replicate 2 keyUp ++ List.replicate 2 keyDown) =
+    { line := codes "SEL", pos := 3, history := [codes "USE b;", codes "USE a;"], historyPending := codes "SEL" } :=
+  (C20_up_then_down_restores_the_typed_line 2 _ rfl rfl rfl (by decide) (by decide) (by decide)).2
+
+/-- after `USE a;` Enter and an unfinished `SEL`: Up Down, then `ECT 1;` Enter submits `SELECT 1;` -/
+example : run {} (codes "USE a;" ++ [13] ++ codes "SEL" ++ [keyUp, keyDown] ++ codes "ECT 1;" ++ [13]) =
+    [[codes "USE a;"], [codes "SELECT 1;"]] := by decide
+
+/-- **Up then Down, in general**: wherever the cursor was and whatever the line holds, Up `j` times then Down
+`j` times from outside the history gives `afterUpDown t`: the line as `[]rune(string(line))` (a key value that
+is no Unicode scalar value - it can be in the line only after a paste - comes back as U+FFFD), the cursor at
+the END of the line (not where it was), `historyPending` that line, everything else as before. -/
+theorem C20_up_then_down_general (j : Nat) (t : Term) (hpa : t.pasteActive = false)
+    (hi : t.historyIndex = -1) (hj1 : 1 ≤ j) (hj : j ≤ t.history.length) :
+    run t (List.replicate j keyUp ++ List.replicate j keyDown) = [] ∧
+      final t (List.replicate j keyUp ++ List.replicate j keyDown) = afterUpDown t :=
+  ups_downs j t hpa hi hj hj1
+
+/-- the cursor was at 1 and is at the end afterwards; the key value 0xd807 in the line comes back as U+FFFD -/
+example : final { line := [97, 0xd807, 98], pos := 1, history := [codes "USE a;"] } [keyUp, keyDown] =
+    { line := [97, 0xfffd, 98], pos := 3, history := [codes "USE a;"], historyPending := [97, 0xfffd, 98] } :=
+  (C20_up_then_down_general 1 _ rfl rfl (by decide) (by decide)).2
+
+/-- **Down undoes Up inside the history too**: at entry `m` of the history (line = that entry, cursor at its
+end), Up `j` times - there are that many older entries - then Down `j` times gives back exactly the same
+state. -/
+theorem C20_up_then_down_inside_history (j : Nat) (t : Term) (m : Nat) (h : InHist t m)
+    (hlen : m + j < t.history.length) :
+    run t (List.replicate j keyUp ++ List.replicate j keyDown) = [] ∧
+      final t (List.replicate j keyUp ++ List.replicate j keyDown) = t :=
+  ups_downs_inHist j t m h hlen
+
+example : InHist { line := codes "USE b;", pos := 6, history := [codes "USE b;", codes "USE a;"], historyIndex := 0 } 0 :=
+  ⟨rfl, rfl, rfl, rfl⟩
+
+/-- **Down outside the history** changes nothing. -/
+theorem C20_down_outside_history (t : Term) (hpa : t.pasteActive = false) (hi : t.historyIndex = -1) :
+    step t keyDown = (t, none) :=
+  step_down_out t hpa hi
+
+example : step { line := codes "SEL", pos := 3 } keyDown = ({ line := codes "SEL", pos := 3 }, none) :=
+  C20_down_outside_history _ rfl rfl
+
+/-- **C20.up_beyond_oldest_changes_nothing**: outside paste mode, when there is no entry older than the one
+shown (`nthPrevious history (historyIndex + 1) = none`: the editor is at the oldest entry, or the history is
+empty), Up - any number of times - hands over nothing and changes nothing: line, cursor, position in the
+history all stay. -/
+theorem C20_up_beyond_oldest_changes_nothing (j : Nat) (t : Term) (hpa : t.pasteActive = false)
+    (h : nthPrevious t.history (t.historyIndex + 1) = none) :
+    run t (List.replicate j keyUp) = [] ∧ final t (List.replicate j keyUp) = t :=
+  ups_beyond j t hpa h
+
+example : final { line := codes "SEL", pos := 2 } (List.replicate 3 keyUp) = { line := codes "SEL", pos := 2 } :=
+  (C20_up_beyond_oldest_changes_nothing 3 _ rfl (by decide)).2
+
+/-- **Up past the oldest entry, then Enter**: after typed keys that handed over `n` statements (`1 ≤ n ≤ 100`),
+Up pressed `n + extra` times and Enter hands over the OLDEST statement again - the presses beyond the oldest
+entry do nothing.  (Complements `C20_recall_resubmits_exactly`, which needs `k ≤ n`.) -/
+theorem C20_recall_beyond_oldest (keys : List Nat) (hv : ∀ k ∈ keys, TypedKey k) (extra : Nat)
+    (hn1 : 1 ≤ (run {} keys).flatten.length) (hn100 : (run {} keys).flatten.length ≤ 100) :
+    run {} (keys ++ List.replicate ((run {} keys).flatten.length + extra) keyUp ++ [keyEnter]) =
+      run {} keys ++ [[(run {} keys).flatten[0]]] := by
+  obtain ⟨g, hh, _⟩ := good_run keys {} good_init hv
+  have hh' : (final {} keys).history.length = (run {} keys).flatten.length := by
+    rw [hh]; simp only [List.append_nil, List.length_take, List.length_reverse]; omega
+  obtain ⟨r, p, hhist, hidx, _⟩ := ups (run {} keys).flatten.length (final {} keys) 0 g.paste
+    (by rw [g.idx]; rfl) (by omega)
+  have hnone : nthPrevious (final (final {} keys) (List.replicate (run {} keys).flatten.length keyUp)).history
+      ((final (final {} keys) (List.replicate (run {} keys).flatten.length keyUp)).historyIndex + 1) = none := by
+    rw [hhist, hidx, nthPrevious_nat, List.getElem?_eq_none (by omega)]
+  have hrec := recall keys hv (run {} keys).flatten.length hn1 (Nat.le_refl _) hn100
+  simp only [Nat.sub_self] at hrec
+  rw [← hrec, List.append_assoc, List.append_assoc, run_append, run_append keys, run_ups_extra _ _ _ _ p hnone]
+
+example : run {} (codes "USE a;" ++ [13] ++ codes "USE b;" ++ [13] ++ List.replicate (2 + 3) keyUp ++ [keyEnter]) =
+    run {} (codes "USE a;" ++ [13] ++ codes "USE b;" ++ [13]) ++ [[codes "USE a;"]] :=
+  C20_recall_beyond_oldest (codes "USE a;" ++ [13] ++ codes "USE b;" ++ [13]) (by decide) 3 (by decide) (by decide)
 
 end Mkdb.Console
